@@ -7,6 +7,7 @@
 From Coq Require Import QArith Reals List Bool.
 Import ListNotations.
 From TT Require Import Num NumR Tree M_like M_rescale P_like P_rescale.
+From TT Require Import M_prune_loop G_prune.
 Open Scope R_scope.
 
 (* For ANY positive scalers (the code's per-node maxima over categories x states, or 1 for the nodes
@@ -19,6 +20,23 @@ Theorem C03_rescaled_eq_plain : forall S sc tip freqs Ps props t,
   site_loglik_rs NumR S sc freqs Ps props tip t = ln (site_lik NumR S freqs Ps props tip t).
 Proof. exact rescaled_eq_plain_l. Qed.
 Print Assumptions C03_rescaled_eq_plain.
+
+(* THE RESCALED LOOPS OF THE CODE, regenerated on every run from calculate_treelikelihood_discrete_rescaled
+   and calculate_treelikelihood_discrete_safe (translator T8, which also pins that the scaler is the maximum
+   over categories x states per site, that it is recorded, that the node stores partial / scaler, and — for
+   the safe variant — the condition under which a node is rescaled):
+   the quantity divided by the scaler is the SAME update as in the plain loop (C01_array_loop_is_pruning),
+   and what is returned is  sum over sites of weight * ( ln(freqs . mixture of the rescaled root) + sum of the
+   ln scalers ): the pattern weight multiplies both terms, as site_loglik_rs / loglik do in the model. *)
+Theorem C03_rescaled_loops_use_the_plain_update : forall (T : Type) (N : Num T) mats partials node lf rt,
+  g_update_rescaled_num N mats partials node lf rt = g_update N mats partials node lf rt /\
+  g_update_safe_num N mats partials node lf rt = g_update N mats partials node lf rt.
+Proof. intros. split; reflexivity. Qed.
+Print Assumptions C03_rescaled_loops_use_the_plain_update.
+Theorem C03_rescaled_returned_expression :
+  g_return_rescaled = expected_return_rescaled /\ g_return_safe = expected_return_rescaled.
+Proof. split; reflexivity. Qed.
+Print Assumptions C03_rescaled_returned_expression.
 
 (* Once rescaling has been switched on it stays on, whatever later evaluations report. *)
 Theorem C03_flag_sticky : forall history, flag_after history true = true.
